@@ -359,7 +359,9 @@ class Reference:
                 cth = ufr("cos", jitter["theta"] * c180)
                 w = w * z3.If(cth >= 0, cth, -cth)
             xb = translate(x) if translate else x
-            gate = z3.And(w > cutoff, valid_ref(self._valid_text(info), self._scalar_env(info, x)))
+            venv = dict(x)
+            venv.update(xb)
+            gate = z3.And(w > cutoff, valid_ref(self._valid_text(info), venv))
             volargs = self._args(km.base.form_volume_parameters, xb)
             if km.base.form_volume_parameters:
                 vf = leaf("form_volume", volargs)
@@ -684,3 +686,46 @@ def search_witness(u, hyps, on_cex, label="leaf-arguments"):
                     u.r["cex"].append(info)
                     found = True
     return found
+
+
+# ---------------------------------------------------------------------------
+# reference translation for reparameterised models (C16)
+
+def make_translator(info):
+    """The translation text of a reparameterised model as a plain C function
+    ``translate_ref(<call parameters...>, double *out)`` -- built by text
+    concatenation only (every assignment line becomes ``const double var =
+    expr;`` in order, call parameters are the function's arguments, C scoping
+    resolves the names), compiled by clang and executed by the IR interpreter.
+    generate.py's own substitution machinery is not used.  Returns
+    ``translate(x) -> {base parameter id: term}`` for dicts of z3 terms."""
+    base = info.base
+    call_ids = [p.id for p in info.parameters.kernel_parameters]
+    base_ids = [p.id for p in base.kernel_parameters]
+    if any(p.length > 1 for p in base.kernel_parameters):
+        raise irparse.Unsupported("vector parameters in a reparameterised base model")
+    lines = []
+    assigned = []
+    for line in (info.translation or "").split("\n"):
+        code = line.split("#", 1)[0].split("//", 1)[0].strip()
+        if not code:
+            continue
+        var, expr = code.split("=", 1)
+        var = var.strip()
+        lines.append("    const double %s = %s;" % (var, expr.strip()))
+        assigned.append(var)
+    header = generate.load_template("kernel_header.c")[0]
+    args = ", ".join("double %s" % n for n in call_ids)
+    outs = "\n".join("    out[%d] = %s;" % (k, n) for k, n in enumerate(base_ids))
+    src = "%s\nvoid translate_ref(%s, double *out)\n{\n%s\n%s\n}\n" % (
+        header, args, "\n".join(lines), outs)
+    path = build.c_to_ir(src, "translate_" + info.id)
+    mod = irparse.parse(path)
+
+    def translate(x):
+        it = interp.Interp(mod, mode="sym", decide=None)
+        out = it.region("out", {})
+        it.call("translate_ref", [x[n] for n in call_ids] + [out])
+        cells = it.mem["out"]
+        return {n: rat(cells[8 * k]) for k, n in enumerate(base_ids)}
+    return translate
